@@ -1,0 +1,186 @@
+//! Verification hooks (compiled only with `--cfg vbxq_aelys_lang_verif`).
+//! Thread-local so that harness runs on different threads do not interfere.
+use std::cell::{Cell, RefCell};
+
+thread_local! {
+    static SINK: RefCell<Option<String>> = const { RefCell::new(None) };
+    static BUDGET: Cell<u64> = const { Cell::new(u64::MAX) };
+    // GC schedule: mode 0 = as the VM decides, 1 = never, 2 = at every safepoint,
+    // 3 = every k-th safepoint, 4 = pseudo-random with the given seed (1 in k)
+    static GC_MODE: Cell<(u8, u64)> = const { Cell::new((0, 0)) };
+    static GC_STATE: Cell<u64> = const { Cell::new(0) };
+    static SAFEPOINTS: Cell<u64> = const { Cell::new(0) };
+    static SAFEPOINTS_NOGC: Cell<u64> = const { Cell::new(0) };
+    static COLLECTIONS: Cell<u64> = const { Cell::new(0) };
+    static COLLECTIONS_NOGC: Cell<u64> = const { Cell::new(0) };
+    static SITE_LOG: RefCell<Option<Vec<(u32, u64, u64)>>> = const { RefCell::new(None) };
+}
+
+/// Start capturing everything the program prints (print/println/print_inline/Print opcode).
+pub fn sink_install() {
+    SINK.with(|s| *s.borrow_mut() = Some(String::new()));
+}
+/// Stop capturing and return what was printed.
+pub fn sink_take() -> String {
+    SINK.with(|s| s.borrow_mut().take().unwrap_or_default())
+}
+/// Returns true when the text was captured (the caller then skips stdout).
+pub fn sink_write(text: &str) -> bool {
+    SINK.with(|s| {
+        if let Some(buf) = s.borrow_mut().as_mut() {
+            buf.push_str(text);
+            true
+        } else {
+            false
+        }
+    })
+}
+
+/// Instruction budget: `budget_set(n)`; every dispatched instruction calls `budget_tick`.
+pub fn budget_set(n: u64) {
+    BUDGET.with(|b| b.set(n));
+}
+pub fn budget_left() -> u64 {
+    BUDGET.with(|b| b.get())
+}
+#[inline(always)]
+pub fn budget_tick() -> bool {
+    BUDGET.with(|b| {
+        let v = b.get();
+        if v == u64::MAX {
+            return true;
+        }
+        if v == 0 {
+            return false;
+        }
+        b.set(v - 1);
+        true
+    })
+}
+
+pub fn gc_mode_set(mode: u8, k: u64) {
+    GC_MODE.with(|m| m.set((mode, k)));
+    GC_STATE.with(|s| s.set(k.wrapping_mul(0x9E37_79B9_7F4A_7C15) | 1));
+}
+pub fn gc_counters_reset() {
+    SAFEPOINTS.with(|c| c.set(0));
+    SAFEPOINTS_NOGC.with(|c| c.set(0));
+    COLLECTIONS.with(|c| c.set(0));
+    COLLECTIONS_NOGC.with(|c| c.set(0));
+}
+/// (safepoints, safepoints reached with no_gc_depth > 0, collections, collections with no_gc_depth > 0)
+pub fn gc_counters() -> (u64, u64, u64, u64) {
+    (
+        SAFEPOINTS.with(|c| c.get()),
+        SAFEPOINTS_NOGC.with(|c| c.get()),
+        COLLECTIONS.with(|c| c.get()),
+        COLLECTIONS_NOGC.with(|c| c.get()),
+    )
+}
+/// Called at the top of `maybe_collect`: counts safepoints (and those inside a no-gc region).
+pub fn gc_safepoint(no_gc_depth: usize) {
+    SAFEPOINTS.with(|c| c.set(c.get() + 1));
+    if no_gc_depth > 0 {
+        SAFEPOINTS_NOGC.with(|c| c.set(c.get() + 1));
+    }
+}
+/// Called by `maybe_collect` after its own no-gc guard. None = let the VM decide.
+pub fn gc_decide() -> Option<bool> {
+    let (mode, k) = GC_MODE.with(|m| m.get());
+    match mode {
+        1 => Some(false),
+        2 => Some(true),
+        3 => {
+            let n = SAFEPOINTS.with(|c| c.get());
+            Some(k != 0 && n % k == 0)
+        }
+        4 => {
+            let mut x = GC_STATE.with(|s| s.get());
+            x ^= x << 13;
+            x ^= x >> 7;
+            x ^= x << 17;
+            GC_STATE.with(|s| s.set(x));
+            Some(k != 0 && x % k == 0)
+        }
+        _ => None,
+    }
+}
+pub fn gc_collected(no_gc_depth: usize) {
+    COLLECTIONS.with(|c| c.set(c.get() + 1));
+    if no_gc_depth > 0 {
+        COLLECTIONS_NOGC.with(|c| c.set(c.get() + 1));
+    }
+}
+
+/// Raw-access site log (C04): (site id, index, buffer length).
+pub fn site_log_install() {
+    SITE_LOG.with(|s| *s.borrow_mut() = Some(Vec::new()));
+}
+pub fn site_log_take() -> Vec<(u32, u64, u64)> {
+    SITE_LOG.with(|s| s.borrow_mut().take().unwrap_or_default())
+}
+#[inline(always)]
+pub fn site(id: u32, idx: u64, len: u64) {
+    SITE_LOG.with(|s| {
+        if let Some(v) = s.borrow_mut().as_mut() {
+            if v.len() < 1_000_000 {
+                v.push((id, idx, len));
+            }
+        }
+    });
+}
+
+// ---- read-only accessors on the VM (same crate, so the pub(crate) fields are visible) ----
+impl crate::vm::VM {
+    pub fn verif_native_names(&self) -> Vec<String> {
+        let mut v: Vec<String> = self.native_registry.keys().cloned().collect();
+        v.sort();
+        v
+    }
+    pub fn verif_global_names(&self) -> Vec<String> {
+        let mut v: Vec<String> = self.globals.keys().cloned().collect();
+        v.sort();
+        v
+    }
+    pub fn verif_call_site_cache_len(&self) -> usize {
+        self.call_site_cache.len()
+    }
+    pub fn verif_frames_len(&self) -> usize {
+        self.frames.len()
+    }
+    /// Heap indices of the roots exactly as `collect` enumerates them.
+    pub fn verif_roots(&self) -> Vec<usize> {
+        let mut r = Vec::new();
+        for frame in &self.frames {
+            let base = frame.base;
+            for i in 0..frame.num_registers as usize {
+                let idx = base + i;
+                if idx < self.registers.len() {
+                    if let Some(p) = self.registers[idx].as_ptr() {
+                        r.push(p);
+                    }
+                }
+            }
+            r.push(frame.function().index());
+        }
+        for v in self.globals.values() {
+            if let Some(p) = v.as_ptr() {
+                r.push(p);
+            }
+        }
+        for v in &self.globals_by_index {
+            if let Some(p) = v.as_ptr() {
+                r.push(p);
+            }
+        }
+        for u in &self.open_upvalues {
+            r.push(u.index());
+        }
+        for u in &self.current_upvalues {
+            r.push(u.index());
+        }
+        r.sort();
+        r.dedup();
+        r
+    }
+}
